@@ -83,6 +83,11 @@ CHECKS['C20'] = dict(engine='SYMTOK+CH', category='other', design='4/C20',
    text='NARROWED SCOPE (stated): this technique decides call histories and shared-state mutation, not thread schedules or hash seeds. (a) For every predecessor class (accepting, lexer error, parser error in two dialects, planner error, plan+render) and every token stream of <= K tokens of each dialect, parse_sql gives the same tree / message as without the predecessor. (b) A structural fingerprint of every module-level and class-level object of mindsdb_sql and sly (tables, grammars, lexer classes, reserved words, ...) is unchanged by a battery of parse/plan/render calls including failing ones. (c) For every ordered pair of family statements and catalog form, planning the second on catalog objects already used for the first equals planning it on fresh objects. Under the stated assumption that no call temporarily mutates and restores shared objects, (b) implies concurrent calls do not interfere.',
    note='NOT claimed: real thread interleavings (neither CrossHair nor our executors model CPython scheduling) and PYTHONHASHSEED independence (a two-seed re-run of the planner family is recorded in the evidence as a sample, not a verdict). K<=2 quick / 3 thorough.')
 
+CHECKS['C15'] = dict(engine='SYMREL', category='translation_validation', design='4/C15',
+   technique='z3 relational encoding (SYMREL): the fetch queries of the real plan (FetchDataframeStep / MultipleSteps / MapReduceStep with $var substitution) are evaluated over a symbolic table, symbolic window size and symbolic user constants and compared as bags with the row set of the property statement; sat models are replayed by executing the plan\'s queries on sqlite3',
+   text='For each of 252 family members (9 time conditions x 3 partition filters x 0..2 partition columns x model side x LIMIT) the real planner is run once and the emitted data-fetching steps are translated; z3 shows that for EVERY table content of up to R rows (NULLs, duplicates, empty partitions), every window size 1..R and every constant, the rows handed to the model are exactly: the rows satisfying the time condition plus the `window` most recent rows before its lower bound (or the most recent `window` rows up to the point for = / LATEST), per partition value, non-NULL order value, partition filters applied. Also: output filter = the user\'s condition, LIMIT applied after the join, ORDER BY/GROUP BY/HAVING/OFFSET/foreign filters rejected with PlanningException.',
+   note='Trusted: z3; SYMREL translator (validated against sqlite3 on random tables for every member on every run); step semantics from planner/steps.py docstrings. Ties in the order column and NULL partition values are excluded by stated assumptions. R=3,D=3 quick / R=4,D=4 thorough.')
+
 NA_PENDING = {}
 
 
